@@ -173,6 +173,9 @@ func runSchedule(sc Scenario, choices []int) result {
 	}
 	defer func() { xmpp.VerifHook = nil }()
 	conn.Gate = func(point string) { sched.Gate(point) }
+	// ... and once more when the bytes are on the wire, before the writer gets any further: the peer may answer a
+	// request before its sender has done whatever it does next
+	conn.GateWritten = func() { sched.Gate("conn.written") }
 	returned := map[string]bool{}
 	cancelledNow := map[string]bool{}
 	ctxs := map[string]context.Context{}
